@@ -3,7 +3,7 @@
 From Verif Require Import Base.Tactics Base.ZList Base.Val.
 From Verif Require Import Base.Str.
 From Verif Require Import Model.BufReaderModel Model.RangeModel Model.IsoTimeModel Model.TimingModel Model.SegModel.
-From Verif Require Import Base.Bits Model.CrcModel Model.EventsModel Model.Scte35Model Model.MpsModel Model.AuthModel.
+From Verif Require Import Base.Bits Model.CrcModel Model.EventsModel Model.Scte35Model Model.MpsModel Model.AuthModel Model.OptionsModel.
 
 (* ---- C20 ---- request: (file off bs maxb (size?) mode ops) *)
 Definition c20_op (v : val) : op :=
@@ -236,8 +236,41 @@ Definition c15_run (v : val) : val :=
                               vints (vnth 1 e), vints (vnth 2 e))) (vlist (vnth 2 v)) in
   VL (c15_flags (c15_lookup tbl) [] calls).
 
+(* ---- C07 ---- request: (mode (kindcode default) payload)
+   mode 0: value -> URL text   mode 1: raw URL text -> value at the media endpoint *)
+Definition c07_kind (v : val) : kind :=
+  let c := vint (vnth 0 v) in
+  if c =? 0 then KBool else if c =? 1 then KIntOrNone else if c =? 2 then KIntDefault (vint (vnth 1 v))
+  else if c =? 3 then KStrOrNone else if c =? 4 then KStr else if c =? 5 then KList else KUnknown.
+Definition c07_value (v : val) : value :=
+  let c := vint (vnth 0 v) in
+  if c =? 0 then VBool (0 <? vint (vnth 1 v))
+  else if c =? 1 then VOptInt (as_opt_int (vnth 1 v))
+  else if c =? 2 then VInt (vint (vnth 1 v))
+  else if c =? 3 then VOptStr (match vnth 1 v with VL [VL s] => Some (map vint s) | _ => None end)
+  else if c =? 4 then VStr (vints (vnth 1 v))
+  else VList (map vints (vlist (vnth 1 v))).
+Definition c07_value_out (x : value) : val :=
+  match x with
+  | VBool b => VL [VI 0; vbool b]
+  | VOptInt o => VL [VI 1; vopt_int o]
+  | VInt n => VL [VI 2; VI n]
+  | VOptStr None => VL [VI 3; VL []]
+  | VOptStr (Some s) => VL [VI 3; VL [of_ints s]]
+  | VStr s => VL [VI 4; of_ints s]
+  | VList l => VL [VI 5; VL (map of_ints l)]
+  end.
+Definition c07_run (v : val) : val :=
+  let mode := vint (vnth 0 v) in
+  let k := c07_kind (vnth 1 v) in
+  if mode =? 0 then
+    match OptionsModel.fmt k (c07_value (vnth 2 v)) with Some t => VL [of_ints t] | None => VL [] end
+  else
+    match OptionsModel.parse k (qdecode (vints (vnth 2 v))) with Some x => VL [c07_value_out x] | None => VL [] end.
+
 Definition dispatch (comp : Z) (v : val) : val :=
   if comp =? 20 then c20_run v
+  else if comp =? 7 then c07_run v
   else if comp =? 15 then c15_run v
   else if comp =? 12 then c12_run v
   else if comp =? 14 then c14_run v
